@@ -4,7 +4,7 @@ import hashlib
 
 from hypothesis import strategies as st
 
-from vlib.runner import good, bad, HarnessError
+from vlib.runner import good, bad, HarnessError, BaselineBroken
 from vlib.det import DET
 from vlib import scenario as sc
 from vlib import tap
@@ -115,8 +115,7 @@ def run(name, mitm):
         server["sessionCache"] = cache
         p0 = sc.connect(client, server)
         if not p0.both_ok:
-            raise HarnessError("first handshake failed %r %r" % (p0.co,
-                                                                 p0.so))
+            raise BaselineBroken("first-handshake:" + name, "%r %r" % (p0.co, p0.so))
         sc.do_write(p0, "s", b"x")
         sc.read_all(p0, "c")
         sc.do_close(p0, "c")
@@ -139,11 +138,10 @@ def honest(name):
             return [rec["hdr"] + rec["body"]]
         p = run(name, mitm)
         if not p.both_ok:
-            raise HarnessError("honest %s failed: %r %r" % (name, p.co,
-                                                            p.so))
+            raise BaselineBroken("scenario:" + name, "%r %r" % (p.co, p.so))
         vc, vs = views(p)
         if vc != vs:
-            raise HarnessError("honest views differ in %s" % name)
+            raise BaselineBroken("views-differ:" + name, "")
         key = params(p)
         _honest[name] = (log, key, bool(p.c.resumed))
     return _honest[name]
